@@ -135,7 +135,7 @@ func C08(c *core.Ctx) {
 		}
 		r := rng.Fork()
 		tree := gen.GenBody(r, dc.kids, 55+r.Intn(40), o)
-		tgtKind := core.Pick(r, []string{"refstore", "refstore", "reflect-map", "node-map", "reflect-struct", "reflect-struct-ptr", "node-struct-ptr"})
+		tgtKind := core.Pick(r, []string{"refstore", "refstore", "refstore-nokey", "reflect-map", "node-map", "reflect-struct", "reflect-struct-ptr", "node-struct-ptr"})
 		if ti%5 == 4 {
 			// a schema with choices (nested in cases, shorthand cases, leaves and containers before and after them)
 			gen.ResetNames()
@@ -158,8 +158,9 @@ func C08(c *core.Ctx) {
 			tgtKind = "refstore" // a struct field cannot hold the empty string as a key (it reads as unset)
 		}
 		c08lenient = strings.Contains(tgtKind, "-struct")
+		refstore.NoKeyOnLookup = tgtKind == "refstore-nokey"
 		switch {
-		case tgtKind == "refstore":
+		case strings.HasPrefix(tgtKind, "refstore"):
 			root = refstore.NewBody(nil, dc.kids, tree, "")
 		case strings.Contains(tgtKind, "-struct"):
 			so := c03structOpts(tgtKind, r)
@@ -265,6 +266,37 @@ func C08(c *core.Ctx) {
 							}
 							c.Count("variant", "dotdot-after-query")
 						}
+						// the same from a selection on a leaf of that node: one more step up; the leaf selection's parent
+						// is the node that holds it and its path is that node's path plus the leaf
+						for li, ls := range other.kids {
+							if ls.Kind != "leaf" || other.body[li].Leaf == nil {
+								continue
+							}
+							c.Evaluations++
+							c.Count("variant", "dotdot-from-leaf")
+							lsel, lerr := find(b.Root(), other.path+"/"+ls.Name)
+							if lerr != nil || lsel == nil {
+								c.Violation(core.Replay{Kind: "property-failure", Class: "leaf-find-" + tgtKind, Summary: fmt.Sprintf("%s Find(%q) of a leaf that is set gives (%v, %v)", tgtKind, other.path+"/"+ls.Name, lsel != nil, lerr), Input: input(other, "leaf")})
+								break
+							}
+							wantOther := c08expectLeaves(other.kids, other.body)
+							if par := lsel.Parent(); par == nil {
+								c.Violation(core.Replay{Kind: "property-failure", Class: "leaf-parent-" + tgtKind, Summary: fmt.Sprintf("%s Find(%q).Parent() is nil", tgtKind, other.path+"/"+ls.Name), Input: input(other, "leaf")})
+							} else if got := c08leaves(par, other.kids); got != wantOther {
+								c.Violation(core.Replay{Kind: "property-failure", Class: "leaf-parent-" + tgtKind, Summary: fmt.Sprintf("%s Find(%q).Parent() holds %s, the node that holds the leaf holds %s", tgtKind, other.path+"/"+ls.Name, got, wantOther), Input: input(other, "leaf")})
+							}
+							c08expectLeaves(n.kids, n.body) // the set leaves of the addressed node again
+							if lp, op := lsel.Path.StringNoModule(), osel.Path.StringNoModule()+"/"+ls.Name; lp != op {
+								c.Violation(core.Replay{Kind: "property-failure", Class: "leaf-path-" + tgtKind, Summary: fmt.Sprintf("%s Find(%q): the path of the selection is %q, want %q", tgtKind, other.path+"/"+ls.Name, lp, op), Input: input(other, "leaf")})
+							}
+							s4, err4 := find(lsel, "../"+up+n.path)
+							if err4 != nil || s4 == nil {
+								c.Violation(core.Replay{Kind: "property-failure", Class: "dotdot-leaf-" + tgtKind, Summary: fmt.Sprintf("%s from the leaf %q: Find(%q) gives (%v, %v)", tgtKind, other.path+"/"+ls.Name, "../"+up+n.path, s4 != nil, err4), Input: input(n, "dotdot from leaf "+other.path+"/"+ls.Name)})
+							} else if got := c08leaves(s4, n.kids); got != want {
+								c.Violation(core.Replay{Kind: "property-failure", Class: "dotdot-leaf-content-" + tgtKind, Summary: fmt.Sprintf("%s from the leaf %q: Find(%q) selects a node holding %s instead of %s", tgtKind, other.path+"/"+ls.Name, "../"+up+n.path, got, want), Input: input(n, "dotdot from leaf")})
+							}
+							break
+						}
 						c.Evaluations++
 						c.Count("variant", "dotdot")
 						s3, err3 := find(osel, up+n.path)
@@ -310,7 +342,8 @@ func C08(c *core.Ctx) {
 		}
 		// navigation never modifies data
 		var after string
-		if tgtKind == "refstore" {
+		refstore.NoKeyOnLookup = false
+		if strings.HasPrefix(tgtKind, "refstore") {
 			after = gen.Canon(dc.kids, tree, false)
 		} else if tgtStruct.IsValid() {
 			after = gen.Canon(dc.kids, gen.FromStruct(dc.kids, tgtStruct, 0), false)
